@@ -62,15 +62,17 @@ def _binary(name, dx, dy, op):
         # + zero-length dimensions broadcast against size-1 dimensions
         empties = [((1, 3), (0, 3)), ((0, 3), (1, 3)), ((3, 1), (3, 0)), ((1,), (0,)), ((0,), ()), ((2, 1, 1), (0, 3)), ((1, 1), (0, 0))]
         sa, sb = ch.choose("shapes", A.broadcast_pairs(shs) + empties)
-        ka = ch.choose("kind_x", T.kinds_for(sa))
-        kb = ch.choose("kind_y", T.kinds_for(sb))
+        ka = ch.choose("kind_x", T.kinds_for(sa, mixing=True))
+        kb = ch.choose("kind_y", T.kinds_for(sb, mixing=True))
         forms = ["np.%s(x, y)" % name] + (["x %s y" % op] if op else [])
         expr = ch.choose("form", forms)
         x, y = T.arr(sa, dx[0], dx[1], ka), T.arr(sb, dy[0], dy[1], kb)
         bro = "none" if sa == sb else ("rank" if len(sa) != len(sb) else "size1")
         inner1 = any(d == 1 for d in sa[1:]) or any(d == 1 for d in sb[1:])
-        return Case(name, expr, dict(x=x, y=y), dict(broadcast=bro, kinds=ka + "," + kb, form="op" if expr[0] == "x" else "func",
+        case = Case(name, expr, dict(x=x, y=y), dict(broadcast=bro, kinds=ka + "," + kb, form="op" if expr[0] == "x" else "func",
                                                      size1_nonleading=inner1), family="B")
+        case.value_oracle = "f32" not in (ka, kb)      # reduced precision: structure (C05) and primal (C06) only
+        return case
     return s
 
 
